@@ -75,9 +75,7 @@ def conversions(chk, F, A):
                     status = 'refuted'
                     why = '`as %s` at %s with operand in %r: values outside %s are changed by the cast' % (to, at, v, to)
         sub = {'at': im['span']['callsite'], 'fn': fk, 'config': cfg}
-        chk.ob('%s/cast/%s/%s' % (PID, cfg, fk), 'cast rule', status, subject=sub,
-               expected='operand value set inside the target type at every `as`', found=found, why=why,
-               nontrivial=bool(static_casts))
+        cast_verdict = (status, why, found, bool(static_casts))
 
         # ---- value identity
         key = '%s/conv/%s/%s' % (PID, cfg, label)
@@ -120,9 +118,113 @@ def conversions(chk, F, A):
                 status, why = 'refuted', 'does not accept every source value within the target range: accepts %r, expected %r' % (accept, want)
             chk.ob(key, 'conversion value identity', status, subject=sub,
                    expected='result == source value exactly for sources within %s' % (list(rt),), found=found[:4], why=why)
-        guarded(chk, key, 'conversion value identity', ev)
+            return status
+        conv_status = guarded(chk, key, 'conversion value identity', ev)
+        cstatus, cwhy, cfound, cnt = cast_verdict
+        if cstatus == 'refuted' and conv_status == 'proved':
+            # a wrapping cast whose result is checked afterwards (round-trip guard): the conversion as a whole was just
+            # shown to accept exactly the in-range values and to preserve them, which is what the cast rule is there for
+            cstatus, cfound, cwhy = 'proved', cfound + ['wrapping cast, guarded: value identity of the whole conversion is proved (conv obligation)'], ''
+        chk.ob('%s/cast/%s/%s' % (PID, cfg, fk), 'cast rule', cstatus, subject=sub,
+               expected='operand value set inside the target type at every `as`, or the conversion as a whole proved value-preserving',
+               found=cfound, why=cwhy, nontrivial=cnt)
     if cfg == 'K1':
         chk.floor('casts_in_conversions_K1', FLOORS['casts_in_conversions_K1'], ncasts)
+
+
+ORD_PATH = 'core::cmp::Ordering'
+EXPECT = {  # method -> result per ordering of (x, y)
+    'eq': {'lt': 0, 'eq': 1, 'gt': 0}, 'ne': {'lt': 1, 'eq': 0, 'gt': 1},
+    'lt': {'lt': 1, 'eq': 0, 'gt': 0}, 'le': {'lt': 1, 'eq': 1, 'gt': 0},
+    'gt': {'lt': 0, 'eq': 0, 'gt': 1}, 'ge': {'lt': 0, 'eq': 1, 'gt': 1},
+    'cmp': {'lt': 0, 'eq': 1, 'gt': 2}, 'partial_cmp': {'lt': 0, 'eq': 1, 'gt': 2},
+}
+_HOLDS = {'lt': {'lt'}, 'le': {'lt', 'eq'}, 'gt': {'gt'}, 'ge': {'gt', 'eq'}, 'eq': {'eq'}, 'ne': {'lt', 'gt'}}
+_FLIP = {'lt': 'gt', 'gt': 'lt', 'eq': 'eq'}
+
+
+def _strip(t):
+    while t[0] == 'cast':
+        t = t[2]
+    return t
+
+
+def comparison_semantics(F, fk, method, mx):
+    """a hand-written comparison method decided over the finite set of orderings of its two operands:
+    every returning path is consistent with some of {x < y, x = y, x > y} (its recorded relational branch conditions),
+    and returns what the numeric order prescribes for each of them; all three orderings are covered.
+    -> (status, why, found)"""
+    from ..interp import Interp, Rf
+    from .. import harness as H
+    short = [k for k, v in NT.items() if fk.startswith('<' + v + ' as')]
+    path = NT[short[0]] if short else None
+    if path is None or fk not in F.fns:
+        return 'unproven', 'method not found', []
+    rep = midi.NEWTYPE_REPR[short[0]]
+    I = Interp(F)
+    st = I.new_state()
+    x, y = T.T('x', rep), T.T('y', rep)
+    st.cons[x] = VS(0, mx)
+    st.cons[y] = VS(0, mx)
+    st.root().locals['a'] = Ag(path, 0, [Sc(x, H.INT(rep))])
+    st.root().locals['b'] = Ag(path, 0, [Sc(y, H.INT(rep))])
+    outs = [o for o in I.run(fk, [Rf(0, 'a', ()), Rf(0, 'b', ())], [], st) if o.kind != 'dead']
+    width = mx.bit_length()
+    full_eq = frozenset(frozenset([('b', x[1], j), ('b', y[1], j)]) for j in range(width))
+    covered, found = set(), []
+
+    def ev(t, w):
+        t = _strip(t)
+        if t[0] == 'c':
+            return t[1]
+        if t[0] == 'not':
+            v = ev(t[1], w)
+            return None if v is None else 1 - v
+        if t[0] == 'cmp':
+            a, b = _strip(t[2]), _strip(t[3])
+            rel = w if (a, b) == (x, y) else _FLIP[w] if (a, b) == (y, x) else None
+            return None if rel is None else int(rel in _HOLDS[t[1]])
+        return None
+    for o in outs:
+        if o.kind != 'return' or o.st.notes:
+            return ('refuted' if o.kind == 'panic' else 'unproven'), '%s outcome %s %s' % (o.kind, o.why, o.st.notes[:1]), found
+        om = {'lt', 'eq', 'gt'}
+        for kind, payload, truth in o.st.preds:
+            if kind == 'lt':
+                a, b = _strip(payload[0]), _strip(payload[1])
+                sat = {'lt'} if (a, b) == (x, y) else {'gt'} if (a, b) == (y, x) else None
+            elif kind == 'eq':
+                sat = {'eq'} if payload == full_eq else None
+            else:
+                sat = None
+            if sat is None:
+                return 'unproven', 'a branch condition is not a comparison of the two operands: %s' % T.pred_str((kind, payload, truth)), found
+            om &= sat if truth else ({'lt', 'eq', 'gt'} - sat)
+        # the value sets of the operands may be narrowed by what the orderings of this path imply, and by nothing else
+        imp = {'lt': (VS(0, mx - 1), VS(1, mx)), 'eq': (VS(0, mx), VS(0, mx)), 'gt': (VS(1, mx), VS(0, mx - 1))}
+        ex, ey = VS.of([]), VS.of([])
+        for w in om:
+            ex, ey = ex.join(imp[w][0]), ey.join(imp[w][1])
+        if om and not (ex.subset(vs_of(x, o.st.cons)) and ey.subset(vs_of(y, o.st.cons))):
+            return 'unproven', 'a path depends on the operands otherwise than through their order (x in %r, y in %r)' % (vs_of(x, o.st.cons), vs_of(y, o.st.cons)), found
+        v = o.value
+        if method == 'partial_cmp':
+            pl = H.opt_payload(v)
+            v = pl[1] if pl and pl[0] == 'some' else None
+        for w in sorted(om):
+            if method in ('cmp', 'partial_cmp'):
+                got = v.variant if isinstance(v, Ag) and v.path == ORD_PATH else None
+            else:
+                got = ev(v.term, w) if isinstance(v, Sc) else None
+            found.append('x %s y: %r' % ({'lt': '<', 'eq': '=', 'gt': '>'}[w], got))
+            if got is None:
+                return 'unproven', 'result %r not decided for x %s y' % (o.value, w), found
+            if got != EXPECT[method][w]:
+                return 'refuted', '%s returns %r for x %s y' % (method, o.value, {'lt': '<', 'eq': '=', 'gt': '>'}[w]), found
+            covered.add(w)
+    if covered != {'lt', 'eq', 'gt'}:
+        return 'unproven', 'no returning path for the orderings %s' % sorted({'lt', 'eq', 'gt'} - covered), found
+    return 'proved', '', found
 
 
 def derives(chk, F):
@@ -140,7 +242,29 @@ def derives(chk, F):
             # comparisons against other types (PartialEq<u8> ...) would be additional impls with trait args
             ok = len(ims) == 1 and builtin_derive(ims[0]) and unsigned
             n += int(ok)
-            chk.ob('%s/derive/%s/%s/%s' % (PID, cfg, short, tr.split('::')[-1]), 'derived comparison',
+            tname = tr.split('::')[-1]
+            if not ok and len(ims) == 1 and unsigned and tname in ('PartialEq', 'PartialOrd', 'Ord', 'Eq', 'Hash', 'Default'):
+                # a hand-written impl: decided semantically (comparisons over the orderings of the operands; Default by the
+                # default obligation below; Eq has no method; Hash is not part of the property)
+                n += 1
+                methods = {'PartialEq': ('eq', 'ne'), 'PartialOrd': ('partial_cmp', 'lt', 'le', 'gt', 'ge'), 'Ord': ('cmp',)}.get(tname, ())
+                extra = [m for m in ('max', 'min', 'clamp') if tname == 'Ord' and '<%s as %s>::%s' % (path, tr, m) in F.fns]
+                for m in methods:
+                    fk = '<%s as %s>::%s' % (path, tr, m)
+                    if fk not in F.fns:
+                        continue          # the trait's default method, defined by the ones that are written
+                    key = '%s/compare/%s/%s/%s' % (PID, cfg, short, m)
+
+                    def evc(fk=fk, m=m, key=key, short=short):
+                        status, why, found = comparison_semantics(F, fk, m, midi.NEWTYPE_MAX[short])
+                        chk.ob(key, 'comparison agrees with the numeric order', status, subject=fn_subject(F, fk),
+                               expected='%s(x, y) as the numeric order of the stored values prescribes, for x < y, x = y, x > y' % m, found=found[:6], why=why)
+                    guarded(chk, key, 'comparison agrees with the numeric order', evc)
+                if extra:
+                    chk.ob('%s/compare/%s/%s/overrides' % (PID, cfg, short), 'comparison agrees with the numeric order', 'unproven',
+                           why='hand-written %s are not decided' % extra, nontrivial=False)
+                continue
+            chk.ob('%s/derive/%s/%s/%s' % (PID, cfg, short, tname), 'derived comparison',
                    'proved' if ok else 'unproven', subject={'at': ims[0]['span']['callsite'] if ims else a['span']['callsite'], 'config': cfg},
                    expected='exactly one impl, generated by the builtin derive, on a single unsigned field',
                    found=[(im['span']['macros'][:1], im['automatically_derived']) for im in ims],
